@@ -239,8 +239,11 @@ class Helper(object):
         self.fn = fn
         self.static = any(isinstance(d, ast.Name) and d.id == 'staticmethod' for d in fn.decorator_list)
         a = fn.args
-        self.ok = not (a.kwarg or a.kwonlyargs or getattr(a, 'posonlyargs', None))
+        self.ok = not (a.kwonlyargs or getattr(a, 'posonlyargs', None))
         self.vararg = a.vararg.arg if a.vararg else None
+        self.kwarg = a.kwarg.arg if a.kwarg else None
+        if self.kwarg and not self.vararg:
+            self.ok = False          # (only the forwarding form `*args, **kwargs` is handled)
         if any(not (isinstance(d, ast.Name) and d.id == 'staticmethod') for d in fn.decorator_list):
             self.ok = False
         body = _loop_idioms(_docless(fn.body))
@@ -252,7 +255,7 @@ class Helper(object):
             if not params or params[0] != 'self':
                 self.ok = False
             params = params[1:]
-        self.params = params + ([self.vararg] if self.vararg else [])
+        self.params = params + ([self.vararg] if self.vararg else []) + ([self.kwarg] if self.kwarg else [])
         nd = len(a.defaults)
         self.defaults = {}
         allp = [x.arg for x in a.args]
@@ -680,17 +683,24 @@ class Normaliser(object):
             return None
         if any(isinstance(a, ast.Starred) for a in call.args) or any(k.arg is None for k in call.keywords):
             return None
+        extra_kw = []
         if getattr(h, 'vararg', None):
-            fixed = h.params[:-1]
-            if len(call.args) < len(fixed) or any(k.arg == h.vararg for k in call.keywords):
+            fixed = h.params[:-1] if not getattr(h, 'kwarg', None) else h.params[:-2]
+            if len(call.args) < len(fixed) or any(k.arg in (h.vararg, getattr(h, 'kwarg', None)) for k in call.keywords):
                 return None
             binding = dict(zip(fixed, call.args))
             binding[h.vararg] = ast.copy_location(ast.Tuple(elts=list(call.args[len(fixed):]), ctx=ast.Load()), call)
+            if getattr(h, 'kwarg', None):
+                # keywords that name no parameter are collected, in the order written, by the ** parameter
+                extra_kw = [k for k in call.keywords if k.arg not in fixed]
+                binding[h.kwarg] = ast.copy_location(ast.Dict(keys=[ast.Constant(value=k.arg) for k in extra_kw], values=[k.value for k in extra_kw]), call)
         elif len(call.args) > len(h.params):
             return None
         else:
             binding = dict(zip(h.params, call.args))
         for k in call.keywords:
+            if any(k is x for x in extra_kw):
+                continue
             if k.arg not in h.params or k.arg in binding:
                 return None
             binding[k.arg] = k.value
@@ -826,6 +836,17 @@ class Normaliser(object):
                     if isinstance(arg, ast.Constant) or (isinstance(arg, ast.Name) and not (captured and arg.id in stores_after) and arg.id not in h.stored):
                         subst[L] = arg
                         continue
+                    # a method of the caller's object handed over as a callable and only ever called: `self.m` is looked up where it is called
+                    # (methods are class attributes: the look-up finds the same function whenever it is made)
+                    if isinstance(arg, ast.Attribute) and isinstance(arg.value, ast.Name) and arg.value.id == 'self' and not captured and \
+                            any(isinstance(c_, ast.ClassDef) and any(isinstance(m_, ast.FunctionDef) and m_.name == arg.attr for m_ in c_.body)
+                                for t_ in self.trees.values() for c_ in t_.body) and \
+                            not any(isinstance(x, ast.Attribute) and isinstance(x.ctx, ast.Store) and x.attr == arg.attr for t_ in self.trees.values() for x in ast.walk(t_)):
+                        uses_ = [x for s_ in h.body for x in ast.walk(s_) if isinstance(x, ast.Name) and x.id == L]
+                        callee_ = [c_.func for s_ in h.body for c_ in ast.walk(s_) if isinstance(c_, ast.Call) and isinstance(c_.func, ast.Name) and c_.func.id == L]
+                        if uses_ and len(uses_) == len(callee_):
+                            subst[L] = arg
+                            continue
                 new = self._fresh(L)
                 mapping[L] = new
                 pre.append(ast.copy_location(ast.Assign(targets=[ast.Name(id=new, ctx=ast.Store())], value=copy.deepcopy(arg)), stmt))
@@ -1251,42 +1272,56 @@ class Normaliser(object):
 
     def run(self):
         if self.inline_only:
-            self._defs_to_lambdas = self._ifs_to_conditional_expressions = self._outline = self._merge_conditional_calls = self._split_parallel_assignments = self._for_else_to_early_exit = self._scalarise_private_namedtuples = self._forward_pure_loads = self._spread_and_getattr = self._alias_of_renamed_def = self._apply_lambda_locals = self._unpack_private_namedtuple_calls = self._index_of_list_literal = self._sink_result_aliases = lambda: None
+            self._defs_to_lambdas = self._ifs_to_conditional_expressions = self._outline = self._merge_conditional_calls = self._split_parallel_assignments = self._for_else_to_early_exit = self._scalarise_private_namedtuples = self._forward_pure_loads = self._spread_and_getattr = self._alias_of_renamed_def = self._apply_lambda_locals = self._unpack_private_namedtuple_calls = self._index_of_list_literal = self._sink_result_aliases = self._accumulator_loops_to_comprehensions = lambda: None
         self._defs_to_lambdas()
         if self.helpers and not self.inline_only:
             self._collect_refresh()       # helper bodies were captured before nested defs became lambdas
         if not self.helpers:
+            self._accumulator_loops_to_comprehensions()
+            self._unpack_private_namedtuple_calls()
             self._split_parallel_assignments()
+            self._index_of_list_literal()
+            self._sink_result_aliases()
             self._for_else_to_early_exit()
             self._ifs_to_conditional_expressions()
             self._merge_conditional_calls()
             self._outline()
             return self
-        for _ in range(8):
-            self.changed = False
-            for mn, t in self.trees.items():
-                for s in t.body:
-                    if isinstance(s, ast.FunctionDef):
-                        s.body = self._do_body(s.body, mn, None, s, [])
-                    elif isinstance(s, ast.ClassDef):
-                        for m in s.body:
-                            if isinstance(m, ast.FunctionDef):
-                                m.body = self._do_body(m.body, mn, s, m, [])
-            if not self.changed:
+        def inline_round():
+            any_change = False
+            for _ in range(8):
+                self.changed = False
+                for mn, t in self.trees.items():
+                    for s in t.body:
+                        if isinstance(s, ast.FunctionDef):
+                            s.body = self._do_body(s.body, mn, None, s, [])
+                        elif isinstance(s, ast.ClassDef):
+                            for m in s.body:
+                                if isinstance(m, ast.FunctionDef):
+                                    m.body = self._do_body(m.body, mn, s, m, [])
+                if not self.changed:
+                    break
+                any_change = True
+                self._collect_refresh()
+            return any_change
+        inline_round()
+        for round_ in range(2):
+            self._drop_unused()
+            self._propagate_temporaries()
+            self._scalarise_private_namedtuples()
+            self._propagate_temporaries()
+            self._alias_of_renamed_def()
+            self._apply_lambda_locals()
+            self._spread_and_getattr()
+            self._accumulator_loops_to_comprehensions()
+            self._forward_pure_loads()
+            self._unpack_private_namedtuple_calls()
+            self._split_parallel_assignments()
+            self._index_of_list_literal()
+            self._sink_result_aliases()
+            # a call of a helper that only became visible now (a method handed to a higher-order helper, written in place above)
+            if self.inline_only or not inline_round():
                 break
-            self._collect_refresh()
-        self._drop_unused()
-        self._propagate_temporaries()
-        self._scalarise_private_namedtuples()
-        self._propagate_temporaries()
-        self._alias_of_renamed_def()
-        self._apply_lambda_locals()
-        self._spread_and_getattr()
-        self._forward_pure_loads()
-        self._unpack_private_namedtuple_calls()
-        self._split_parallel_assignments()
-        self._index_of_list_literal()
-        self._sink_result_aliases()
         self._for_else_to_early_exit()
         self._ifs_to_conditional_expressions()
         self._merge_conditional_calls()
@@ -1457,22 +1492,32 @@ class Normaliser(object):
                             if a == b:
                                 continue
                             stores_b = [x for x in ast.walk(fn) if isinstance(x, ast.Name) and x.id == b and isinstance(x.ctx, (ast.Store, ast.Del))]
-                            if len(stores_b) != 1 or b in {p.arg for p in fn.args.args + fn.args.kwonlyargs} or \
+                            if not stores_b or b in {p.arg for p in fn.args.args + fn.args.kwonlyargs} or \
                                     any(isinstance(x, (ast.Global, ast.Nonlocal)) and (a in x.names or b in x.names) for x in ast.walk(fn)):
                                 continue
-                            j = next((j for j in range(i - 1, -1, -1) if isinstance(blk[j], ast.Assign) and len(blk[j].targets) == 1 and
-                                      blk[j].targets[0] is stores_b[0]), None)
-                            if j is None:
+                            # every binding of b is a statement of this block: a plain assignment, or the last statement of a `with` body
+                            def binds_b(st_):
+                                if isinstance(st_, ast.Assign) and len(st_.targets) == 1 and isinstance(st_.targets[0], ast.Name) and st_.targets[0].id == b:
+                                    return True
+                                return isinstance(st_, ast.With) and bool(st_.body) and binds_b(st_.body[-1]) and \
+                                    sum(1 for x in ast.walk(st_) if isinstance(x, ast.Name) and x.id == b and isinstance(x.ctx, (ast.Store, ast.Del))) == 1
+                            binders = [idx for idx, st_ in enumerate(blk) if binds_b(st_)]
+                            if len(binders) != len(stores_b):
                                 continue
-                            between = blk[j:]          # (reads after the alias, in the rest of the block, see the same object under either name
+                            before = [idx for idx in binders if idx < i]
+                            if not before:
+                                continue
+                            j = before[-1]
+                            k = min([idx for idx in binders if idx > i] or [len(blk)])
+                            between = blk[j:k]         # (reads after the alias, up to the next binding of b, see the same object under either name
                             #                             as long as `a` is not bound again there)
-                            inside = {id(x) for st_ in between for x in ast.walk(st_)}
+                            in_blk = {id(x) for st_ in blk for x in ast.walk(st_)}
                             reads_b = [x for x in ast.walk(fn) if isinstance(x, ast.Name) and x.id == b and isinstance(x.ctx, ast.Load)]
-                            if any(id(x) not in inside for x in reads_b):
+                            if any(id(x) not in in_blk for x in reads_b):
                                 continue
                             if any(isinstance(x, ast.Name) and x.id == a and x is not s_.targets[0] for st_ in blk[j:i + 1] for x in ast.walk(st_)):
                                 continue
-                            if any(isinstance(x, ast.Name) and x.id == a and isinstance(x.ctx, (ast.Store, ast.Del)) for st_ in blk[i + 1:] for x in ast.walk(st_)):
+                            if any(isinstance(x, ast.Name) and x.id == a and isinstance(x.ctx, (ast.Store, ast.Del)) for st_ in blk[i + 1:k] for x in ast.walk(st_)):
                                 continue
                             # nested functions reading b late would see the same object under either name: still, keep it simple
                             if any(isinstance(x, (ast.FunctionDef, ast.Lambda)) for st_ in between for x in ast.walk(st_)
@@ -1495,6 +1540,101 @@ class Normaliser(object):
                             break
                         if again:
                             break
+
+    def _accumulator_loops_to_comprehensions(self):
+        """`i = 0; while i < len(S): ... S[i] ...; i += 1` (i and S otherwise untouched, no break / continue) is `for x in S: ... x ...`;
+        `L = []; for x in IT: [t = e;] L.append(E)` (nothing else in the body, L not read by it) is `L = [E for x in IT]`. The values
+        produced and the order of evaluation are the same; only an exception half way leaves `L` unbound instead of partly filled, which
+        no reader of the package looks at (the name is local and the exception leaves the block)"""
+        norm_ = self
+
+        def mentions(node, name):
+            return any(isinstance(x, ast.Name) and x.id == name for x in ast.walk(node))
+
+        def rewrite(stmts, fn):
+            i = 0
+            while i < len(stmts):
+                s_ = stmts[i]
+                for fld in ('body', 'orelse', 'finalbody'):
+                    b = getattr(s_, fld, None)
+                    if isinstance(b, list) and b and isinstance(b[0], ast.stmt):
+                        rewrite(b, fn)
+                for h in getattr(s_, 'handlers', []) or []:
+                    rewrite(h.body, fn)
+                # index cursor -> for
+                if isinstance(s_, ast.While) and not s_.orelse and i > 0 and isinstance(s_.test, ast.Compare) and len(s_.test.ops) == 1 and \
+                        isinstance(s_.test.ops[0], ast.Lt) and isinstance(s_.test.left, ast.Name) and isinstance(s_.test.comparators[0], ast.Call) and \
+                        isinstance(s_.test.comparators[0].func, ast.Name) and s_.test.comparators[0].func.id == 'len' and len(s_.test.comparators[0].args) == 1 and \
+                        isinstance(s_.test.comparators[0].args[0], ast.Name):
+                    iv, sv = s_.test.left.id, s_.test.comparators[0].args[0].id
+                    init = stmts[i - 1]
+                    last = s_.body[-1] if s_.body else None
+                    ok = isinstance(init, ast.Assign) and len(init.targets) == 1 and isinstance(init.targets[0], ast.Name) and init.targets[0].id == iv and \
+                        isinstance(init.value, ast.Constant) and init.value.value == 0 and type(init.value.value) is int and \
+                        isinstance(last, ast.AugAssign) and isinstance(last.op, ast.Add) and isinstance(last.target, ast.Name) and last.target.id == iv and \
+                        isinstance(last.value, ast.Constant) and last.value.value == 1 and \
+                        not any(isinstance(x, (ast.Break, ast.Continue, ast.Return, ast.Yield, ast.YieldFrom)) for b_ in s_.body for x in ast.walk(b_))
+                    if ok:
+                        body = s_.body[:-1]
+                        subs = [x for b_ in body for x in ast.walk(b_) if isinstance(x, ast.Subscript) and isinstance(x.value, ast.Name) and x.value.id == sv and
+                                isinstance(x.slice, ast.Name) and x.slice.id == iv and isinstance(x.ctx, ast.Load)]
+                        inside = {id(y) for x in subs for y in ast.walk(x)}
+                        others = [x for b_ in body for x in ast.walk(b_) if isinstance(x, ast.Name) and x.id in (iv, sv) and id(x) not in inside]
+                        after = [x for st_ in stmts[i + 1:] for x in ast.walk(st_) if isinstance(x, ast.Name) and x.id == iv]
+                        if subs and not others and not after and body:
+                            el = norm_._fresh(sv + '_item')
+
+                            class R(ast.NodeTransformer):
+                                def visit_Subscript(self_, n):
+                                    if any(n is x for x in subs):
+                                        return ast.copy_location(ast.Name(id=el, ctx=ast.Load()), n)
+                                    return self_.generic_visit(n)
+                            body = [R().visit(b_) for b_ in body]
+                            loop = ast.copy_location(ast.For(target=ast.Name(id=el, ctx=ast.Store()), iter=ast.Name(id=sv, ctx=ast.Load()), body=body, orelse=[]), s_)
+                            ast.fix_missing_locations(loop)
+                            stmts[i - 1:i + 1] = [loop]
+                            norm_.inlined.append(('index cursor loop', sv, 'for'))
+                            i -= 1
+                            continue
+                # accumulator -> comprehension
+                if isinstance(s_, ast.For) and not s_.orelse and i > 0 and isinstance(s_.target, ast.Name) and s_.body:
+                    init = stmts[i - 1]
+                    last = s_.body[-1]
+                    if isinstance(init, ast.Assign) and len(init.targets) == 1 and isinstance(init.targets[0], ast.Name) and isinstance(init.value, ast.List) and \
+                            not init.value.elts and isinstance(last, ast.Expr) and isinstance(last.value, ast.Call) and isinstance(last.value.func, ast.Attribute) and \
+                            last.value.func.attr == 'append' and isinstance(last.value.func.value, ast.Name) and last.value.func.value.id == init.targets[0].id and \
+                            len(last.value.args) == 1 and not last.value.keywords:
+                        L = init.targets[0].id
+                        temps = s_.body[:-1]
+                        E = copy.deepcopy(last.value.args[0])
+                        good = all(isinstance(t_, ast.Assign) and len(t_.targets) == 1 and isinstance(t_.targets[0], ast.Name) for t_ in temps) and \
+                            not mentions(s_.iter, L) and not mentions(E, L) and not any(mentions(t_, L) for t_ in temps)
+                        if good:
+                            # single-use explaining variables of the element are written in place (later ones first)
+                            for t_ in reversed(temps):
+                                nm = t_.targets[0].id
+                                uses = [x for x in ast.walk(E) if isinstance(x, ast.Name) and x.id == nm]
+                                elsewhere = [x for x in ast.walk(fn) if isinstance(x, ast.Name) and x.id == nm]
+                                if len(uses) != 1 or len(elsewhere) != 2:
+                                    good = False
+                                    break
+
+                                class S(ast.NodeTransformer):
+                                    def visit_Name(self_, n):
+                                        return copy.deepcopy(t_.value) if n.id == nm and isinstance(n.ctx, ast.Load) else n
+                                E = S().visit(E)
+                        if good and not any(isinstance(x, (ast.Yield, ast.YieldFrom, ast.Await, ast.NamedExpr)) for x in ast.walk(E)):
+                            comp = ast.ListComp(elt=E, generators=[ast.comprehension(target=s_.target, iter=s_.iter, ifs=[], is_async=0)])
+                            new_ = ast.copy_location(ast.Assign(targets=[ast.Name(id=L, ctx=ast.Store())], value=comp), init)
+                            ast.fix_missing_locations(new_)
+                            stmts[i - 1:i + 1] = [new_]
+                            norm_.inlined.append(('accumulator loop', L, 'comprehension'))
+                            i -= 1
+                            continue
+                i += 1
+        for t in self.trees.values():
+            for fn in [n for n in ast.walk(t) if isinstance(n, ast.FunctionDef)]:
+                rewrite(fn.body, fn)
 
     def _for_else_to_early_exit(self):
         """`for ..: .. break ..  else: E` followed by AFTER, where E always returns / raises and AFTER (a few simple statements) always
@@ -1790,6 +1930,47 @@ class Normaliser(object):
                         return out
                     fn.body = drop(fn.body)
                     norm_.inlined.append(('*tuple', fn.name, 'spread'))
+
+        # `f(**d)` where `d` is bound once to a dict display with constant identifier keys and name / constant values and read only there
+        for t in self.trees.values():
+            for fn in [n for n in ast.walk(t) if isinstance(n, ast.FunctionDef)]:
+                dicts = {}
+                for n in ast.walk(fn):
+                    if isinstance(n, ast.Assign) and len(n.targets) == 1 and isinstance(n.targets[0], ast.Name) and isinstance(n.value, ast.Dict) and \
+                            all(isinstance(k_, ast.Constant) and isinstance(k_.value, str) and k_.value.isidentifier() for k_ in n.value.keys) and \
+                            all(isinstance(v_, (ast.Name, ast.Constant)) for v_ in n.value.values):
+                        dicts.setdefault(n.targets[0].id, []).append(n)
+                for nm, defs in list(dicts.items()):
+                    names = [x for x in ast.walk(fn) if isinstance(x, ast.Name) and x.id == nm]
+                    spreads = [(c, k_) for c in ast.walk(fn) if isinstance(c, ast.Call) for k_ in c.keywords if k_.arg is None and isinstance(k_.value, ast.Name) and k_.value.id == nm]
+                    if len(defs) != 1 or len(spreads) != 1 or len(names) != 2:
+                        continue
+                    d0 = defs[0]
+                    vals = {v_.id for v_ in d0.value.values if isinstance(v_, ast.Name)}
+                    if any(isinstance(x, ast.Name) and isinstance(x.ctx, ast.Store) and x.id in vals and x.lineno > d0.lineno for x in ast.walk(fn)):
+                        continue
+                    c, k_ = spreads[0]
+                    if {kk.value for kk in d0.value.keys} & {x.arg for x in c.keywords if x.arg}:
+                        continue
+                    idx = c.keywords.index(k_)
+                    c.keywords[idx:idx + 1] = [ast.keyword(arg=kk.value, value=copy.deepcopy(v_)) for kk, v_ in zip(d0.value.keys, d0.value.values)]
+                    ast.fix_missing_locations(c)
+
+                    def drop2(stmts):
+                        out = []
+                        for s_ in stmts:
+                            if s_ is d0:
+                                continue
+                            for fld in ('body', 'orelse', 'finalbody'):
+                                b = getattr(s_, fld, None)
+                                if isinstance(b, list) and b and isinstance(b[0], ast.stmt):
+                                    setattr(s_, fld, drop2(b) or [ast.copy_location(ast.Pass(), s_)])
+                            for h in getattr(s_, 'handlers', []) or []:
+                                h.body = drop2(h.body) or [ast.copy_location(ast.Pass(), h)]
+                            out.append(s_)
+                        return out
+                    fn.body = drop2(fn.body)
+                    norm_.inlined.append(('**dict', fn.name, 'spread'))
 
         class G(ast.NodeTransformer):
             def visit_Call(self_, c):
